@@ -980,7 +980,7 @@ namespace via
           if (!chunk_.parse(iter, end))
           {
             // if a parsing error (not run out of data)
-            if (iter != end)
+            if ((iter != end) || chunk_.fail())
             {
               response_code_ = response_status::code::BAD_REQUEST;
               clear();
